@@ -276,7 +276,7 @@ def run_sym(fn, params=None, seed=0, max_paths=5000, n_validate=2, goal_timeout_
                 if w is not None and len(res['models']) < 3:
                     res['models'].append(dict(label=label, path=pi, values=w, observed=[], from_witness_search=True))
         if pi in val_paths:
-            r, m = ctx.model_of_path()
+            r, m = _random_model(ctx, env, rnd)
             if r == 'sat':
                 res['validation'].append(dict(path=pi, values=_model_values(m, env), observed=_eval_obs(m, observed)))
     if not stats['complete']:
@@ -286,6 +286,28 @@ def run_sym(fn, params=None, seed=0, max_paths=5000, n_validate=2, goal_timeout_
         res['status'] = 'vacuous'
         res['error'] = 'no goals reached (all paths cut or aborted)'
     return _finish(res, env, t_start, stats)
+
+
+def _random_model(ctx, env, rnd):
+    """A model of the path condition with as many variables as possible pinned to random values of their
+    range (validation against the real code should not run on the all-zero model)."""
+    import z3
+    names = [n for n in env.vars if n in env.declared or True]
+    for frac in (1.0, 0.6, 0.3, 0.1, 0.0):
+        pins = []
+        for n in names:
+            if rnd.random() < frac:
+                lo, hi = env.vars[n]
+                pins.append(z3.Int(n) == rnd.randrange(lo, hi))
+        ctx.solver.push()
+        ctx.solver.add(*pins)
+        ctx.solver.set('timeout', 5000)
+        r = str(ctx.solver.check())
+        m = ctx.solver.model() if r == 'sat' else None
+        ctx.solver.pop()
+        if r == 'sat':
+            return r, m
+    return r, None
 
 
 def _witness(ctx, goal, n_pc, n_assm, env, rnd, tries=300):
